@@ -191,6 +191,20 @@ impl World {
                 }
             }
         }
+        // xml:id index: what xml_id_node hands out for every document node and a few id values (C04: never a removed node)
+        let mut xid: Vec<J> = vec![];
+        for id in 1..=n {
+            let h = self.h(id);
+            if !self.xot.is_removed(h) && self.xot.is_document(h) {
+                for v in ["i1", "i2", "i3", "x y", "dup"] {
+                    if let Some(found) = self.xot.xml_id_node(h, v) {
+                        let fid = self.known(found).unwrap_or(0);
+                        let removed = std::panic::catch_unwind(std::panic::AssertUnwindSafe(|| self.xot.is_removed(found))).unwrap_or(true);
+                        xid.push(json!([id, v, fid, removed]));
+                    }
+                }
+            }
+        }
         // the other store (if any), projected through the same handles; handles that only exist on this side are skipped
         let tw = if self.twin.is_some() {
             let mut other = self.twin.take().unwrap();
@@ -210,7 +224,7 @@ impl World {
         } else {
             json!({"has": false, "n": []})
         };
-        json!({"n": nodes, "cons": self.cons, "eo": self.ever_off, "rs": rs, "bad": if self.corrupt { "walk-bound" } else { "" }, "tw": tw})
+        json!({"n": nodes, "cons": self.cons, "eo": self.ever_off, "rs": rs, "bad": if self.corrupt { "walk-bound" } else { "" }, "tw": tw, "xid": xid})
     }
 
     /// Build a world from an abstract state (as dumped by TLC or logged earlier).  Ids are preserved.
@@ -286,6 +300,9 @@ impl World {
         // read back and compare
         let back = w.project(None);
         if back["n"] != st["n"] || back["cons"] != st["cons"] || back["rs"].as_array().map(|a| a.len()) != Some(0) {
+            // the public creation / append calls did not produce the intended forest: log the construction as an episode
+            // of ordinary events, so that TLC can point at the call that deviates from L1
+            crate::forest::log_build_episode(st);
             return Err(format!("rebuilt state differs: {}", back));
         }
         Ok(w)
